@@ -251,15 +251,36 @@ pub fn spill_ref_before_anchor(w: &[Input], a: &Analysis) -> bool {
     false
 }
 
-/// a dynamic anchor P depends (directly or through other formulas; reading a cell of a potential spill
-/// area counts as reading its anchor) on a dynamic anchor Q that comes LATER in (sheet,row,column)
-/// order: phase 1 of `evaluate` visits P first and only repairs the order for DIRECT dependencies
+/// F33, tight: a dynamic anchor P depends THROUGH A SCALAR FORMULA IN BETWEEN on a dynamic anchor Q that
+/// comes LATER in (sheet,row,column) order (reading a cell of a potential spill area counts as reading
+/// its anchor): phase 1 of `evaluate` visits P first, the scalar formula is evaluated on demand and
+/// marked, and the order repair (`position_in_support`) only looks at what P read DIRECTLY.
+/// A DIRECT read of Q's spill by P is NOT in this class (the repair must handle it, see below).
 pub fn spill_depends_on_later_spill(w: &[Input], a: &Analysis) -> bool {
     for i in 0..w.len() {
         if a.extent[i] == (1, 1) { continue; }
-        let r = a.reach_from(i);
-        for j in 0..w.len() {
-            if j != i && r[j] && a.extent[j] != (1, 1) && (w[j].0, w[j].1, w[j].2) > (w[i].0, w[i].1, w[i].2) { return true; }
+        for &k in &a.deps[i] {
+            // the intermediate: a scalar FORMULA that P reads directly
+            if k == i || a.extent[k] != (1, 1) || !a.parsed[k].is_formula { continue; }
+            let r = a.reach_from(k);
+            for j in 0..w.len() {
+                if j != i && r[j] && a.extent[j] != (1, 1) && (w[j].0, w[j].1, w[j].2) > (w[i].0, w[i].1, w[i].2) { return true; }
+            }
+        }
+    }
+    false
+}
+
+/// a dynamic anchor P reads DIRECTLY, as a plain reference or range (not `X#`), a cell of the potential
+/// spill area of a dynamic anchor Q that comes LATER in (sheet,row,column) order.  `evaluate` repairs
+/// this order in phase 1, so such workbooks must be order-independent and idempotent: a failure here
+/// is NOT a known finding (class `direct_read_of_later_spill`, unlisted).
+pub fn direct_read_of_later_spill(w: &[Input], a: &Analysis) -> bool {
+    for i in 0..w.len() {
+        if a.extent[i] == (1, 1) { continue; }
+        for &j in &a.deps[i] {
+            if j != i && a.extent[j] != (1, 1) && (w[j].0, w[j].1, w[j].2) > (w[i].0, w[i].1, w[i].2)
+                && !a.parsed[i].refs.iter().any(|u| u.spill) { return true; }
         }
     }
     false
